@@ -1006,6 +1006,14 @@ class Interp:
                     scrut = body
             for i, e in enumerate(pat['elems']):
                 comp = scrut[1][i] if scrut[0] == 'tuple' and i < len(scrut[1]) else ('tf', scrut, i)
+                if scrut[0] == 'alt' and pat['k'] == 'PTuple':
+                    # `let (a, b) = match x { Some((p, q)) => (Some(p), Some(q)), None => (None, None) }`: each component is the choice of that
+                    # component; a choice between Some(..) and None is the Option it spells out
+                    comp = self.field(scrut, str(i))
+                    oc, ov = self.as_opt(comp)
+                    if oc is not None:
+                        pos_, neg_ = cond_facts(oc)
+                        comp = ('opt', prune(oc, [], []), prune(ov, pos_, neg_))
                 c = self.bind(e, comp, env)
                 if c != TRUE:
                     conds.append(c)
